@@ -1,0 +1,26 @@
+// SPDX-FileCopyrightText: 2023 The Pion community <https://pion.ly>
+// SPDX-License-Identifier: MIT
+
+//go:build verif
+
+package test
+
+// Machine-checked contracts for /verif (govc).  Comment-only.
+
+//@ arith int
+
+//@ func (conn *bridgeConn) Read(b []byte) (n int, err error)
+//@   requires conn.readDeadline != nil && conn.readCh != nil
+//@   modifies b[*], rdExpired, rdLast
+//@   ghost after Done#1: rdExpired = closed(result$); rdLast = result$
+//@   ghost after Done#2: rdLast = result$
+//@   ensures [deadline.persist] rdExpired ==> n == 0 && typeis(err, *netError)
+//@   ensures [deadline.nospurious] typeis(err, *netError) ==> n == 0 && closed(rdLast)
+//@   ensures [n] 0 <= n && n <= len(b)
+
+//@ func (conn *bridgeConn) SetReadDeadline(t time.Time) (err error)
+//@   requires conn.readDeadline != nil
+//@   modifies lastUntil
+//@   ensures [nil] err == nil
+
+//@ property C10: bridgeConn.Read, bridgeConn.SetReadDeadline
